@@ -306,6 +306,10 @@ func (s *sniffer) Read(p []byte) (int, error) {
 	if s.bufferSize > s.bufferRead {
 		bn := copy(p, s.buffer.Bytes()[s.bufferRead:s.bufferSize])
 		s.bufferRead += bn
+		if s.bufferRead < s.bufferSize {
+			// still buffered data left: the error seen while sniffing belongs after the last buffered byte
+			return bn, nil
+		}
 		return bn, s.lastErr
 	} else if !s.sniffing && s.buffer.Cap() != 0 {
 		s.buffer = bytes.Buffer{}
